@@ -57,6 +57,9 @@ func vhMintQuoteStep(mode int, nSigs, nProofs int) {
 	raw := env.db.VhRaw()
 	m.limits.MintingSettings.MaxAmount = v.U64("limit.mint.max")
 	m.limits.MaxBalance = v.U64("limit.balance")
+	if mode&vhC16 != 0 {
+		m.limits.MeltingSettings.MaxAmount = v.U64("limit.melt.max")
+	}
 	v.SqlSymRows(raw, "blind_signatures", nSigs)
 	v.SqlSymRows(raw, "proofs", nProofs)
 	issued, redeemed := env.balanceZ(nSigs, nProofs)
@@ -105,9 +108,9 @@ func vhMintQuoteStep(mode int, nSigs, nProofs int) {
 	}
 }
 
-func VHarnessMintQuoteC16()      { vhMintQuoteStep(vhC16|vhC02, 1, 1) }
-func VHarnessMintQuoteC16Wide()  { vhMintQuoteStep(vhC16|vhC02, 2, 1) }
-func VHarnessMintQuoteC06() { vhMintQuoteStep(vhC06, 1, 1) }
+func VHarnessMintQuoteC16()     { vhMintQuoteStep(vhC16|vhC02, 1, 1) }
+func VHarnessMintQuoteC16Wide() { vhMintQuoteStep(vhC16|vhC02, 2, 1) }
+func VHarnessMintQuoteC06()     { vhMintQuoteStep(vhC06, 1, 1) }
 
 // One RequestMeltQuote with a real invoice (or garbage), optional MPP, arbitrary limits and pre-existing quotes.
 func vhMeltQuoteStep(mode int) {
@@ -115,6 +118,10 @@ func vhMeltQuoteStep(mode int) {
 	m := env.m
 	raw := env.db.VhRaw()
 	m.limits.MeltingSettings.MaxAmount = v.U64("limit.melt.max")
+	if mode&vhC16 != 0 { // every limits configuration: the other limits are arbitrary too
+		m.limits.MintingSettings.MaxAmount = v.U64("limit.mint.max")
+		m.limits.MaxBalance = v.U64("limit.balance")
+	}
 	m.mppEnabled = v.Bool("mpp.enabled")
 	mq := env.mintQuote("mintq", true)
 	v.SqlSymRows(raw, "melt_quotes", 1)
